@@ -119,7 +119,10 @@ func judgeCells(cells []byte, alpha, chars string, p, q int, ignoreCase, ignoreG
 }
 
 // judgeMajority: fraction of the most abundant character among the non excluded cells.
-// Counting with or without case folding are both accepted (C14 states the folded one).
+// The most abundant character is determined on case-folded counts: 'A' and 'a' are one character.
+// (The majority clause of C12 anchors MaxCharStats; the statement of C14 defines "the majority /
+// consensus character" on case-folded counts, docs/commands/stats.md and consensus.md treat N/n and X/x
+// as one character, and the unchanged MaxCharStats upper-cases every cell before counting.)
 // No eligible cell: the documented fall-back ("except if only gaps/Ns") leaves the fraction
 // undefined: either outcome.
 //
@@ -133,32 +136,23 @@ func judgeMajority(cells []byte, alpha string, p, q int, ignoreGaps, ignoreN, li
 	if !literal {
 		p = effP(p, q)
 	}
-	var f, u [256]int
-	total, mf, mu := 0, 0, 0
+	var f [256]int
+	total, mf := 0, 0
 	for _, ch := range cells {
 		if (ignoreGaps && ch == '-') || (ignoreN && isWild(alpha, ch)) {
 			continue
 		}
 		total++
 		f[fold(ch)]++
-		u[ch]++
 		if f[fold(ch)] > mf {
 			mf = f[fold(ch)]
-		}
-		if u[ch] > mu {
-			mu = u[ch]
 		}
 	}
 	if total == 0 {
 		return stEither, false
 	}
-	d1 := decide(mf, total, p, q)
-	d2 := decide(mu, total, p, q)
-	if d1 != d2 {
-		return stEither, false
-	}
-	tie = p > 0 && mf*q == p*total && mu == mf
-	if d1 {
+	tie = p > 0 && mf*q == p*total
+	if decide(mf, total, p, q) {
 		return stYes, tie
 	}
 	return stNo, tie
